@@ -371,7 +371,7 @@ impl<'a> TypeGenerator<'a> {
             return Ok(type_path);
         }
 
-        let mut ty = self.resolve_type(id)?;
+        let ty = self.resolve_type(id)?;
 
         if ty.path.namespace().is_empty() && ty.path.ident() == Some("Cow".to_string()) {
             let inner_ty_id = ty.type_params[0]
@@ -382,7 +382,8 @@ impl<'a> TypeGenerator<'a> {
                     )
                 })?
                 .id;
-            ty = self.resolve_type(inner_ty_id)?
+            // Cow is transparent: resolve the inner type like any other (it may be a parent type parameter)
+            return self.resolve_type_path_recurse(inner_ty_id, is_field, parent_type_params, None);
         }
 
         let params: Vec<TypePath> = ty
